@@ -23,6 +23,10 @@ INT_ALPHA = [0, 1, -1, 2, -2, 3]                                # simplest first
 FLT_ALPHA = [0.0, 0.1, 0.2, 0.30000000000000004, 0.5, 0.3000000001]   # the last: off a regular run by 3e-10 relative, far above rounding
 _B = 2 ** 53                                                     # integers beyond the exactly-spaced double range
 BIG_ALPHA = [_B, _B + 4, _B + 8, _B + 11, _B + 12, -_B, -_B - 4, -_B - 8, -_B - 11]
+# finite floats whose extrapolation leaves the double range (the next member of a run 0, 1e308 would be infinite)
+HUGE_ALPHA = [0.0, 1e308, 5.0, -1e308, 1.5e308]
+# integers and floats in one sequence (an index holds integer frame numbers next to float depths): an integer comes back exactly
+MIX_ALPHA = [1e17, 3, 1e300, 39, 40, 41, 0.5]
 FLT_DELTA = 0.05                                                # query offset for floats (ints use 1)
 GAPS = [10, 20]
 FRAMES = [1, 2, 3]
@@ -49,7 +53,7 @@ ASSUMPTIONS = [
     'tolerance of the query may count as either side of it',
     'the number of runs (len(rle)) is not prescribed by the statement; only its consistency with the items and with the '
     'rle_len attribute written by RP66V1.IndexXML.xml_rle_write is checked',
-    'mixed int/float sequences are outside the statement',
+    'sequences that mix integers and floats: count, values by position / iteration, first and last only (an integer comes back exactly, a float within the float tolerance); largest_le and the XML form are checked for unmixed sequences',
 ]
 LEVEL_TEXT = ('every operation history up to the depth bound is executed on the real objects; within the bound and the value '
               'alphabets the result is exhaustive, beyond them nothing is claimed')
@@ -77,6 +81,8 @@ def shards(tier):
     out += [{'kind': 'int', 'prefix': list(t)} for t in itertools.product(INT_ALPHA, repeat=p)]
     out += [{'kind': 'float', 'prefix': list(t)} for t in itertools.product(FLT_ALPHA, repeat=p)]
     out += [{'kind': 'bigint', 'prefix': [a, b]} for a in BIG_ALPHA for b in BIG_ALPHA]
+    out += [{'kind': 'hugeflt', 'prefix': [a]} for a in HUGE_ALPHA]
+    out += [{'kind': 'mixed', 'prefix': [a]} for a in MIX_ALPHA]
     for n in range(1, _nrec(tier) + 1):
         if n <= 2 or tier == 'quick':
             out += [{'kind': 'type01', 'n': n, 'head': [f]} for f in FRAMES]
@@ -324,6 +330,42 @@ def check_rle(vals, num):
     return bad, tuple(out), canon
 
 
+def check_rle_mixed(vals):
+    """Integers and floats in one sequence: count, values by position and by iteration, first and last.  An integer that was
+    added comes back as that number exactly; a float to within the tolerance of check_rle taken over the floats of the history."""
+    from TotalDepth.common import Rle
+    vals = list(vals)
+    n = len(vals)
+    tol = (n + 2) * EPS * max([abs(v) for v in vals if isinstance(v, float)] or [0.0])
+    bad = []
+
+    def same(a, b):
+        if isinstance(a, bool) or not isinstance(a, (int, float)):
+            return False
+        return a == b if isinstance(b, int) else abs(a - b) <= tol
+
+    obj = Rle.RLE()
+    for k, v in enumerate(vals):
+        ok, err = _call(obj.add, v)
+        if not ok:
+            return [({'kind': 'rle_add_raise', 'num': 'mixed', 'exc': type(err).__name__}, 'mixed history %r: add(%r) raised %s' % (vals, v, _exc(err)))], ('add_raise', k), None
+    canon = _canon(obj)
+    ok, got = _call(lambda: (obj.num_values(), [obj.value(i) for i in range(n)], list(obj.values()), [obj.value(i - n) for i in range(n)],
+                             obj.first() if n else None, obj.last() if n else None))
+    if not ok:
+        bad.append(({'kind': 'rle_query_raise', 'num': 'mixed', 'exc': type(got).__name__}, 'mixed history %r: a query raised %s; runs %r' % (vals, _exc(got), canon)))
+        return bad, ('query_raise',), canon
+    cnt, by_pos, by_iter, by_neg, first, last = got
+    if cnt != n or len(by_iter) != n:
+        bad.append(({'kind': 'rle_num_values', 'num': 'mixed'}, 'mixed history %r: num_values() = %r, values() gives %d; runs %r' % (vals, cnt, len(by_iter), canon)))
+    for how, seq in (('value(i)', by_pos), ('values()', by_iter), ('value(i - n)', by_neg)):
+        if len(seq) == n and not all(same(a, b) for a, b in zip(seq, vals)):
+            bad.append(({'kind': 'rle_values', 'num': 'mixed', 'how': how}, 'mixed history %r: %s gives %r; runs %r' % (vals, how, seq, canon)))
+    if n and not (same(first, vals[0]) and same(last, vals[-1])):
+        bad.append(({'kind': 'rle_first_last', 'num': 'mixed'}, 'mixed history %r: first() %r last() %r; runs %r' % (vals, first, last, canon)))
+    return bad, (canon, cnt), canon
+
+
 def check_xml(vals, num, hex_output, tol):
     """create_rle(generator) -> xml_rle_write -> read back with an independent decoder."""
     from TotalDepth.common import Rle
@@ -482,7 +524,7 @@ def _search(res, num, alpha, start, depth, sample_at):
             for h in succ:
                 if not first or h:
                     res.transitions += 1     # the add() that reaches h (a shard's start state is reached by one too)
-                bad, outcome, canon = check_rle(h, num)
+                bad, outcome, canon = check_rle_mixed(h) if num == 'mixed' else check_rle(h, num)
                 key = (canon, h)
                 if key in seen:
                     continue
@@ -516,6 +558,10 @@ def run_shard(shard, tier):
         _search(res, 'float', FLT_ALPHA, shard['prefix'], depth, [0.1, 0.30000000000000004, 0.5])
     elif kind == 'bigint':
         _search(res, 'int', BIG_ALPHA, shard['prefix'], 4 if tier == 'quick' else 5, None)
+    elif kind == 'hugeflt':
+        _search(res, 'float', HUGE_ALPHA, shard['prefix'], 4 if tier == 'quick' else 6, None)
+    elif kind == 'mixed':
+        _search(res, 'mixed', MIX_ALPHA, shard['prefix'], 4 if tier == 'quick' else 5, None)
     else:
         n, head = shard['n'], shard['head']
         for rest in itertools.product(FRAMES, repeat=n - len(head)):
@@ -539,6 +585,8 @@ def run_shard(shard, tier):
 def replay(case):
     if case['kind'] == 'type01':
         bad, _ = check_type01([list(r) for r in case['recs']])
+    elif case['kind'] == 'mixed':
+        bad, _, _ = check_rle_mixed(case['vals'])
     else:
         bad, _, _ = check_rle(case['vals'], case['kind'])
     return [{'sig': sig, 'case': case, 'msg': msg} for sig, msg in bad]
